@@ -1,8 +1,9 @@
 CONSTANTS
   AsFound = FALSE
+  InPlace = FALSE
   MdLen = 2
 INIT Init
 NEXT Next
-INVARIANTS TypeOK BindsOther
+INVARIANTS TypeOK BindsOther Stable
 PROPERTIES ReadOnly
 CHECK_DEADLOCK FALSE
